@@ -18,6 +18,7 @@ EXPLANATION = (
     "handle (or re-binds project, lazy fields and the state point object); (c) every function that creates a '<file>~' "
     "temporary consumes it (rename back / remove) on every path to a return or an explicit raise; (d) Job.clear never "
     "deletes the state point file."
+    ' A listing filter written as a length-and-alphabet test is decided by the alphabet it accepts (lower-case hex only).'
 )
 UNDECIDED = ("Equality of the workspace with a model after arbitrary operation histories, check() after every step, several "
              "handles and pickling are behavioural and not decided.")
